@@ -186,10 +186,10 @@ func snapRegistry() regSnap {
 var (
 	baseRegistryText = warmRegistryText() // initialised ahead of baseRegistry
 	baseRegistry     = snapRegistry()
-	baseHOTP     = *otp.DefaultHOTPParam
-	baseTOTP     = *otp.DefaultTOTPParam
-	ptrHOTP      = otp.DefaultHOTPParam
-	ptrTOTP      = otp.DefaultTOTPParam
+	baseHOTP         = *otp.DefaultHOTPParam
+	baseTOTP         = *otp.DefaultTOTPParam
+	ptrHOTP          = otp.DefaultHOTPParam
+	ptrTOTP          = otp.DefaultTOTPParam
 )
 
 func globalsIntact() error {
@@ -394,6 +394,28 @@ func checkC12(c c12Case) verdict {
 			}
 			cfg := otp.SuiteConfigFromRaws(st.Text)
 			cfg.Digits, cfg.Hash = 77, 9
+		case "CustomDefaults":
+			// a caller has replaced the exported defaults by its own parameter set (the variables are exported for that):
+			// nil-parameter calls read it and leave it exactly as the caller made it — also when it is an "incomplete" one
+			// (Digits 0, Period 0) that the library cannot use
+			mine := otp.Param{Digits: otp.Digits(st.Digits), Algorithm: otp.Algorithm(st.Algo), Period: uint(st.Period), Skew: uint(st.Skew)}
+			if st.U%4 == 0 {
+				mine = otp.Param{} // everything left at zero
+			}
+			hp, tp := mine, mine
+			otp.DefaultHOTPParam, otp.DefaultTOTPParam = &hp, &tp
+			instant := time.Unix(int64(st.U%(1<<40)), 0)
+			otp.GenerateHOTP(c12Secret, st.U, nil)
+			otp.ValidateHOTP(c12Secret, "123456", st.U, nil)
+			otp.GenerateTOTP(c12Secret, instant, nil)
+			otp.ValidateTOTP(c12Secret, "123456", instant, nil)
+			changed := otp.DefaultHOTPParam != &hp || otp.DefaultTOTPParam != &tp || hp != mine || tp != mine
+			nowH, nowT := otp.DefaultHOTPParam, otp.DefaultTOTPParam
+			restoreGlobals()
+			if changed {
+				return bad(true, labels, "step %d: nil-parameter calls changed the defaults the caller had installed (%+v): DefaultHOTPParam %p -> %p %+v, DefaultTOTPParam %p -> %p %+v", i, mine, &hp, nowH, hp, &tp, nowT, tp)
+			}
+			nt = true
 		case "Helpers":
 			a := otp.To8ByteBigEndian(st.U)
 			wantA := append([]byte(nil), a...)
@@ -468,11 +490,11 @@ func checkC12(c c12Case) verdict {
 }
 
 var c12Main = newPart("C12", "histories",
-	"rapid: histories of 1..12 calls over all operations taking slices, pointers or structs (GenerateOCRA, ValidateOCRA, OCRAInput.Validate, Generate/Validate HOTP/TOTP with *Param incl. nil and period 0, Generate{TOTP,HOTP}URL, ParseOTPAuthURL, NewSuite, registry lookups with scribbling over returned values, helper results, the padding helper through its hook); every OCRA byte field presented as len==cap, as a prefix of a larger array whose spare capacity holds canary bytes, or as a middle sub-slice, lengths {nil,0,1,7,8,9,127,128,129} or random 0..140; oracle: byte-wise equality of full backing arrays (incl. capacity behind the length), Param / SuiteConfig / URLParam / url.URL copies, DefaultHOTPParam, DefaultTOTPParam (values and pointers) and the whole suite registry — through its accessors and, read directly through the hook VerifRegistry, the package variable itself rendered deeply whatever its type — before vs after every call; validation steps submit the reference's correct code in half of the cases (the accepting path); retained result strings compared with independent copies after every later call and after scribbling over the arguments; non-trivial = a field with spare capacity that is shorter than its pad width, or a nil-param call, or a period-0 call",
+	"rapid: histories of 1..12 calls over all operations taking slices, pointers or structs (GenerateOCRA, ValidateOCRA, OCRAInput.Validate, Generate/Validate HOTP/TOTP with *Param incl. nil and period 0, Generate{TOTP,HOTP}URL, ParseOTPAuthURL, NewSuite, registry lookups with scribbling over returned values, nil-parameter calls after the caller installed its own (also incomplete) default parameter sets, helper results, the padding helper through its hook); every OCRA byte field presented as len==cap, as a prefix of a larger array whose spare capacity holds canary bytes, or as a middle sub-slice, lengths {nil,0,1,7,8,9,127,128,129} or random 0..140; oracle: byte-wise equality of full backing arrays (incl. capacity behind the length), Param / SuiteConfig / URLParam / url.URL copies, DefaultHOTPParam, DefaultTOTPParam (values and pointers) and the whole suite registry — through its accessors and, read directly through the hook VerifRegistry, the package variable itself rendered deeply whatever its type — before vs after every call; validation steps submit the reference's correct code in half of the cases (the accepting path); retained result strings compared with independent copies after every later call and after scribbling over the arguments; non-trivial = a field with spare capacity that is shorter than its pad width, or a nil-param call, or a period-0 call",
 	checkC12)
 
 var c12Ops = []string{"GenerateOCRA", "GenerateOCRA", "GenerateOCRA", "ValidateOCRA", "OCRAInput.Validate", "GenerateHOTP", "ValidateHOTP", "GenerateTOTP", "GenerateTOTP", "ValidateTOTP", "ValidateTOTP",
-	"GenerateTOTPURL", "GenerateHOTPURL", "ParseOTPAuthURL", "NewSuite", "Registry", "Helpers", "padBytes", "padBytes"}
+	"GenerateTOTPURL", "GenerateHOTPURL", "ParseOTPAuthURL", "NewSuite", "Registry", "Helpers", "padBytes", "padBytes", "CustomDefaults"}
 
 func drawSlot(t *rapid.T, label string, want int) slot {
 	s := slot{Layout: rapid.IntRange(0, 2).Draw(t, label+"Layout"), Fill: rapid.Byte().Draw(t, label+"Fill")}
